@@ -1,4 +1,5 @@
 import FmpRpc.Model.Remote
+import FmpRpc.Proofs.RemoteLemmas
 /-
   C18 — remote address rotation and address parsing are complete and stable.
   Concurrency: every method of the remote runs under its mutex (tie:
@@ -11,12 +12,21 @@ open FmpRpc.R
 theorem getAddress_defined (r : Remote) (sh : List (List Str))
     (hi : GroupsNonEmpty r.toIterate) (hs : GroupsNonEmpty sh) (hne : sh ≠ []) :
     ∃ a r', getAddress r sh = some (a, r') ∧ GroupsNonEmpty r'.toIterate := by
-  sorry
+  obtain ⟨he, hne'⟩ := effIt_nonEmpty r sh hi hs hne
+  obtain ⟨a, g, gs, hit, hgs⟩ := nonEmpty_shape _ he hne'
+  refine ⟨a, _, getAddress_of_eff r sh a g gs hit, ?_⟩
+  show GroupsNonEmpty (prune (g :: gs))
+  rw [prune_cons_rest g gs hgs]
+  exact rest_nonEmpty g gs hgs
 
 theorem peek_defined (r : Remote) (sh : List (List Str))
     (hi : GroupsNonEmpty r.toIterate) (hs : GroupsNonEmpty sh) (hne : sh ≠ []) :
     ∃ a r', peek r sh = some (a, r') ∧ GroupsNonEmpty r'.toIterate := by
-  sorry
+  obtain ⟨he, hne'⟩ := effIt_nonEmpty r sh hi hs hne
+  obtain ⟨a, g, gs, hit, hgs⟩ := nonEmpty_shape _ he hne'
+  refine ⟨a, _, peek_of_eff r sh a g gs hit, ?_⟩
+  show GroupsNonEmpty ((a :: g) :: gs)
+  rw [← hit]; exact he
 
 /-- **A full cycle**: from a freshly reset state with arrangement `sh` (all
     groups non-empty), the next `Σ|gᵢ|` calls of `GetAddress` return exactly
@@ -28,13 +38,13 @@ theorem cycle_complete (r : Remote) (sh : List (List Str)) (shs : List (List (Li
     (hs : GroupsNonEmpty sh) (hr : r.toIterate = sh) (hne : sh ≠ []) :
     ∃ r', getN sh.flatten.length r shs = some (sh.flatten, r') ∧ r'.toIterate = [] ∧
       r'.addresses = r.addresses := by
-  sorry
+  exact getN_cycle _ sh r shs rfl hs hr
 
 /-- each arrangement is, group by group, a permutation of the configured
     addresses: so a cycle hands out every address of a group exactly once -/
 theorem shuffle_flatten_perm (addresses sh : List (List Str)) (h : IsShuffle addresses sh) :
     sh.flatten.Perm addresses.flatten ∧ sh.map List.length = addresses.map List.length := by
-  sorry
+  exact isShuffle_perm addresses sh h
 
 /-- **Peek names the address the next GetAddress returns and changes nothing
     observable**: after `Peek`, `GetAddress` returns the same address and the
@@ -42,12 +52,18 @@ theorem shuffle_flatten_perm (addresses sh : List (List Str)) (h : IsShuffle add
 theorem peek_is_next (r : Remote) (sh sh2 : List (List Str)) (a : Str) (r' : Remote)
     (hp : peek r sh = some (a, r')) (hs : GroupsNonEmpty sh) :
     getAddress r' sh2 = getAddress r sh ∧ (getAddress r sh).map (·.1) = some a := by
-  sorry
+  obtain ⟨g, gs, hit, hr'⟩ := peek_some_inv r sh a r' hp
+  subst hr'
+  rw [getAddress_of_eff r sh a g gs hit,
+    getAddress_of_eff _ sh2 a g gs (effIt_of_toIterate _ _ _ _ _ rfl)]
+  exact ⟨rfl, rfl⟩
 
 /-- `Reset` restarts from the first group of a new arrangement -/
 theorem reset_restarts (r : Remote) (sh sh2 : List (List Str)) (a : Str) (g : List Str) (gs : List (List Str))
     (h : sh = (a :: g) :: gs) : (getAddress (reset r sh) sh2).map (·.1) = some a := by
-  sorry
+  subst h
+  rw [getAddress_of_eff _ sh2 a g gs (effIt_of_toIterate _ _ _ _ _ rfl)]
+  rfl
 
 /-- construction keeps exactly the non-blank addresses, normalised, drops
     empty groups, and fails iff none remain -/
@@ -55,11 +71,29 @@ theorem new_normalises (n : Norm) (groups sh : List (List Str)) :
     (new n groups sh = none ↔ clean n groups = []) ∧
     (∀ r, new n groups sh = some r → r.addresses = clean n groups ∧ GroupsNonEmpty r.addresses ∧
       ∀ g ∈ r.addresses, ∀ a ∈ g, a ≠ [] ∧ n.norm a = a) := by
-  sorry
+  constructor
+  · unfold new
+    cases hc : clean n groups with
+    | nil => simp
+    | cons g gs => simp
+  · intro r hr
+    have hr' : r.addresses = clean n groups := by
+      unfold new at hr
+      simp only at hr
+      split at hr
+      · cases hr
+      · cases hr; rfl
+    refine ⟨hr', ?_, ?_⟩
+    · intro g hg
+      rw [hr'] at hg
+      exact (clean_mem n groups g hg).1
+    · intro g hg
+      rw [hr'] at hg
+      exact (clean_mem n groups g hg).2
 
 theorem splitOn_join (sep : Char) (parts : List Str) (hne : parts ≠ [])
     (hs : ∀ p ∈ parts, sep ∉ p) : splitOn sep (join sep parts) = parts := by
-  sorry
+  exact splitOn_join' sep parts hne hs
 
 /-- **Parsing a remote's `String()` yields the same groups**, for addresses
     free of the separator characters (addresses of a constructed remote are
@@ -68,7 +102,7 @@ theorem parse_string_roundtrip (n : Norm) (r : Remote) (sh : List (List Str))
     (hg : GroupsNonEmpty r.addresses) (hne : r.addresses ≠ [])
     (hnorm : ∀ g ∈ r.addresses, ∀ a ∈ g, a ≠ [] ∧ n.norm a = a ∧ ',' ∉ a ∧ ';' ∉ a) :
     ∃ r', parse n (toStr r) sh = some r' ∧ r'.addresses = r.addresses := by
-  sorry
+  exact ⟨_, parse_roundtrip n r sh hg hne hnorm, rfl⟩
 
 /-- **URI rejection**: whenever the scheme is neither fmprpc nor fmprpc+tls,
     the authority has no port separator (or `SplitHostPort` fails otherwise),
@@ -78,13 +112,31 @@ theorem uri_reject (up : Str → Option (Str × Str)) (s scheme hp : Str) (h : u
     (splitHostPort hp = none → parseFMPURI up s = none) ∧
     (lastIndex ':' hp = none → parseFMPURI up s = none) ∧
     (∀ port, splitHostPort hp = some ([], port) → parseFMPURI up s = none) := by
-  sorry
+  have h2 : splitHostPort hp = none → parseFMPURI up s = none := by
+    intro hsp
+    unfold parseFMPURI
+    simp only [h, hsp]
+    split <;> rfl
+  refine ⟨?_, h2, ?_, ?_⟩
+  · intro hsch
+    unfold parseFMPURI
+    simp only [h]
+    rw [if_neg (by intro hc; rcases hc with hc | hc; exact hsch.1 hc; exact hsch.2 hc)]
+  · intro hli
+    apply h2
+    unfold splitHostPort
+    rw [hli]
+  · intro port hsp
+    unfold parseFMPURI
+    simp only [h, hsp]
+    split <;> rfl
 
 /-- every accepted URI reports TLS use exactly for the fmprpc+tls scheme -/
 theorem uri_tls_iff (up : Str → Option (Str × Str)) (s : Str) (f : FMPURI) (h : parseFMPURI up s = some f) :
     (f.useTLS = true ↔ f.scheme = schemeTLS) ∧ (f.scheme = schemeStandard ∨ f.scheme = schemeTLS) ∧
     f.host ≠ [] ∧ ∃ port, splitHostPort f.hostPort = some (f.host, port) := by
-  sorry
+  obtain ⟨_, hsch, hh, hp⟩ := parseFMPURI_some_inv up s f h
+  exact ⟨by simp [FMPURI.useTLS], hsch, hh, hp⟩
 
 /-- `String()` of an accepted URI parses back to an equal value, given that
     `url.Parse` returns the scheme and authority of `scheme://authority`
@@ -93,6 +145,7 @@ theorem uri_roundtrip (up : Str → Option (Str × Str)) (s : Str) (f : FMPURI)
     (h : parseFMPURI up s = some f)
     (hup : up f.toStr = some (f.scheme, f.hostPort)) :
     parseFMPURI up f.toStr = some f := by
-  sorry
+  obtain ⟨_, hsch, hh, port, hp⟩ := parseFMPURI_some_inv up s f h
+  exact parseFMPURI_of up f.toStr f.scheme f.hostPort f.host port hup hsch hp hh
 
 end FmpRpc.C18
